@@ -1,0 +1,5 @@
+//go:build !verif
+
+package ls
+
+func verifDelay(version uint32) {}
